@@ -178,7 +178,8 @@ func (e *bsetEngine) TableSym(fn *ssa.Function, dom []int64, isSym func(v ssa.Va
 }
 
 type evalState struct {
-	symVal func(v ssa.Value) (int64, bool) // optional: additional symbols with fixed values
+	noLoopPhi bool                            // loop-header phis are unknown (their value differs between iterations)
+	symVal    func(v ssa.Value) (int64, bool) // optional: additional symbols with fixed values
 	depth  int
 	e      *bsetEngine
 	fn     *ssa.Function
@@ -419,6 +420,13 @@ func (st *evalState) eval(v ssa.Value) (int64, bool) {
 		}
 		return st.fail("unsupported binary op %v", x.Op)
 	case *ssa.Phi:
+		if st.noLoopPhi {
+			for _, pr := range x.Block().Preds {
+				if x.Block().Dominates(pr) {
+					return st.fail("loop-carried value")
+				}
+			}
+		}
 		from := st.from[x.Block().Index]
 		for i, p := range x.Block().Preds {
 			if p.Index == from {
@@ -716,9 +724,16 @@ func addrIsLocalAlloc(v ssa.Value) bool {
 // reachUnderSym: for each value d of dom, the set of blocks of fn reachable from the entry when every branch
 // condition that is a function of the symbol alone is decided for sym=d and every other branch may go either way.
 func (e *bsetEngine) reachUnderSym(fn *ssa.Function, isSym func(ssa.Value) bool, dom []int64) map[*ssa.BasicBlock]map[int64]bool {
+	r, _ := e.reachEdgesUnderSym(fn, isSym, dom)
+	return r
+}
+
+// reachEdgesUnderSym additionally reports, per CFG edge (from index, to index), the symbol values for which it can be taken.
+func (e *bsetEngine) reachEdgesUnderSym(fn *ssa.Function, isSym func(ssa.Value) bool, dom []int64) (map[*ssa.BasicBlock]map[int64]bool, map[[2]int]map[int64]bool) {
 	out := map[*ssa.BasicBlock]map[int64]bool{}
+	edges := map[[2]int]map[int64]bool{}
 	for _, d := range dom {
-		st := &evalState{e: e, fn: fn, isSym: isSym, d: d, from: make([]int, len(fn.Blocks))}
+		st := &evalState{e: e, fn: fn, isSym: isSym, d: d, from: make([]int, len(fn.Blocks)), noLoopPhi: true}
 		for i := range st.from {
 			st.from[i] = -2
 		}
@@ -745,6 +760,11 @@ func (e *bsetEngine) reachUnderSym(fn *ssa.Function, isSym func(ssa.Value) bool,
 				}
 			}
 			for _, s := range succs {
+				k := [2]int{b.Index, s.Index}
+				if edges[k] == nil {
+					edges[k] = map[int64]bool{}
+				}
+				edges[k][d] = true
 				prev := st.from[s.Index]
 				st.from[s.Index] = b.Index
 				dfs(s)
@@ -754,5 +774,5 @@ func (e *bsetEngine) reachUnderSym(fn *ssa.Function, isSym func(ssa.Value) bool,
 		st.from[0] = -1
 		dfs(fn.Blocks[0])
 	}
-	return out
+	return out, edges
 }
